@@ -121,6 +121,17 @@ def run(ctx):
             if kind not in bad or len(ops) < bad[kind][0]:
                 bad[kind] = (len(ops), ops, pp, text)
         ctx.count("oracle_failures", len(orc.failures))
+    # port exhaustion by edits alone (the OS says "free" every time): 67 resets reserve 1005 > 1001 ports.  Judged by the
+    # oracle only (the model side of this long run would cost minutes of vm_compute); the short scripted exhaustion runs
+    # above are the ones compared with the model.
+    long_ops = [{"op": "reset"}] * 67 + [{"op": "write"}]
+    long_pp = {"mode": "script", "seed": 4, "p_free": 1.0}
+    _, orc, _ = K.run_ops(path, long_ops, make_probe(long_pp), lookups=False)
+    ctx.case("67 resets", nontrivial=True)
+    ctx.count("long_exhaustion_runs")
+    for kind, i, text in orc.failures:
+        if kind not in bad:
+            bad[kind] = (len(long_ops), long_ops, long_pp, text)
     # the harness must not have touched the package's own config directory beyond what importing settings does
     after = snapshot()
     leaked = [f for f in sorted(set(before) | set(after)) if before.get(f) != after.get(f)]
